@@ -326,6 +326,10 @@ class SubInterp:
                 if v[0] in ("SRC", "BUILD", "ELEM"):
                     interesting = True
                     sub_env[p] = ("SRC", apps(v)) if is_sub(v) else v
+            # when the source is a *call* (dispatcher.available_operations()),
+            # a helper can draw from it without being handed it
+            if self.src_call is not None and any(self.src_call(n) for n in ast.walk(t.node) if isinstance(n, ast.Call)):
+                interesting = True
             if interesting:
                 memo = self.ctx.__dict__.setdefault("_sub_memo", {})
                 mkey = (t.qualname, tuple(sorted(sub_env.items())), id(self.filter_call), id(self.src_call))
